@@ -123,6 +123,10 @@ def run_case(case):
         neval += 2
         if g1.shape != (len(xs),) or not np.allclose(g1, g2, rtol=1e-12):
             bad("cdf_input_forms", {"array": g1, "list": g2})
+        one = np.array([float(np.asarray(model.cdf(xs[i])).reshape(-1)[0]) for i in range(len(xs))])
+        neval += len(xs)
+        if g1.shape == one.shape and not np.allclose(g1, one, rtol=1e-9):
+            bad("cdf_several_points_vs_single", {"several": g1, "single": one})
     # ---------------- 3-D: marginal pdf of a conditional dimension (the argument re-ordering differs per dimension)
     for dim in case.get("marginal_pdf_dims", []):
         xv = float(np.quantile(S[:, dim], 0.6))
